@@ -396,3 +396,13 @@ PROP = with_src(C06(), share=10, functions=["Specifier.prereleases", "Specifier.
                 theorems=["Src.contains_translated", "Src.Specifier.prereleases_eq_model", "Src._coerce_version_eq_model",
                           "Src._coerce_version_str", "Src.get_operator_call_eq_model", "Src.Specifier.contains_eq_model",
                           "Src.Specifier.filter_eq_model"])
+# x5: the SpecifierSet side — the `prereleases` property (getter and setter), `contains` / `__contains__` and `filter` —
+# proved equal to SSet.SpecSet.prereleases / contains / filter for every iteration order of the frozenset
+PROP = with_src(PROP, share=10,
+                functions=["SpecifierSet.prereleases", "SpecifierSet.prereleases__set", "SpecifierSet.contains",
+                           "SpecifierSet.__contains__", "SpecifierSet.filter"],
+                module=["PkgProofs.Props.Src.SSetRead", "PkgProofs.Props.Src.SSetFilter"],
+                theorems=["Src.read_translated", "Src.filter_translated", "Src.ordered_of_perm",
+                          "Src.SpecifierSet.prereleases_eq_model", "Src.SpecifierSet.prereleases__set_eq_model",
+                          "Src.SpecifierSet.contains_eq_model", "Src.SpecifierSet.contains_str",
+                          "Src.SpecifierSet.__contains___eq_model", "Src.SpecifierSet.filter_eq_model"])
